@@ -21,7 +21,7 @@ ANCHORS = ["decaylanguage.decay.decay:DecayChain.to_dict", "decaylanguage.decay.
 WORKERS = {"quick": 4, "thorough": 16}
 WTESTS = {"groups": ['chain_to_dict', 'mode_to_dict'], "tests": ['tests/decay', 'tests/utils']}
 REQUIRED = {"sub-decay-without-daughters": 10, "same-decaying-twice-in-one-fs": 20, "same-decaying-two-depths": 20, "metadata-nested>=2": 20, "multiplicity-4": 20,
-            "parser-chain": 20, "queried-before-to_dict": 50, "parser-chain-repeated-daughter": 5, "pdgid-all-ids": 1, "four-constructions": 100, "zero-or-negative-count-in-mapping": 10, "mode-built-from-a-final-state-object-the-caller-edits-afterwards": 20,
+            "parser-chain": 20, "queried-before-to_dict": 50, "parser-chain-repeated-daughter": 5, "pdgid-all-ids": 1, "four-constructions": 100, "zero-or-negative-count-in-mapping": 10, "mode-edited-in-place-then-converted-again": 20, "mode-built-from-a-final-state-object-the-caller-edits-afterwards": 20,
             "C11.chain.to_dict.roundtrip": 300, "C11.mode.to_dict.roundtrip": 300}
 EXHAUSTIVE_NOTE = "all PDG IDs of the EvtGen table go through DecayMode.from_pdgids (sharded over workers); tree shapes <= 5 (quick) / 6 (thorough) enumerated"
 ASSUMPTIONS = ["structural equality is judged on public attributes (mother, decays, bf, daughters, metadata); model_params None == ''"]
@@ -169,6 +169,24 @@ def check_mode(ctx, fs, bf, meta):
     exp = {"bf": bf, "fs": sorted(Counter({k: v for k, v in fs.items() if v > 0}).elements()), **norm_meta(meta)}
     if d != exp:
         ctx.violate("mode-to_dict:direct", f"to_dict() = {d!r}, expected {exp!r}", wit)
+    present = [k for k, v in fs.items() if v > 0]
+    if present and ctx.rng.random() < 0.3:
+        # the caller exchanges one daughter for another on the object itself (same number of particles) and converts again
+        ctx.hit("mode-edited-in-place-then-converted-again")
+        old = present[0]
+        dm.daughters[old] -= 1
+        dm.daughters["eta'"] += 1
+        fs2 = Counter({k: v for k, v in fs.items() if v > 0})
+        fs2[old] -= 1
+        fs2["eta'"] += 1
+        exp2 = {"bf": bf, "fs": sorted((+fs2).elements()), **norm_meta(meta)}
+        ok2, d2 = ctx.guard("mode-roundtrip:to_dict-after-edit", wit, dm.to_dict)
+        contracts.drain()
+        if ok2 and d2 != exp2:
+            ctx.violate("mode-to_dict:after-in-place-edit", f"to_dict() = {d2!r} after exchanging {old} for eta', expected {exp2!r}", wit)
+        if ok2 and dm.daughters.to_list() != exp2["fs"]:
+            ctx.violate("final-state:to_list-after-in-place-edit", f"to_list() = {dm.daughters.to_list()!r}, expected {exp2['fs']!r}", wit)
+        return
     ok, back = ctx.guard("mode-roundtrip:from_dict-raised", wit, DecayMode.from_dict, d)
     if ok and (back.bf != bf or Counter(dict(back.daughters)) != Counter({k: v for k, v in fs.items() if v > 0}) or norm_meta(back.metadata) != norm_meta(meta)):
         ctx.violate("mode-roundtrip:direct", f"from_dict(to_dict()) differs: {back.to_dict()!r}", wit)
